@@ -44,8 +44,8 @@ type c15Pragma struct {
 
 type c15Gen struct{ rng *rand.Rand }
 
-func (g *c15Gen) n(n int) int           { return g.rng.IntN(n) }
-func (g *c15Gen) pct(p int) bool        { return g.rng.IntN(100) < p }
+func (g *c15Gen) n(n int) int            { return g.rng.IntN(n) }
+func (g *c15Gen) pct(p int) bool         { return g.rng.IntN(100) < p }
 func (g *c15Gen) of(xs ...string) string { return xs[g.rng.IntN(len(xs))] }
 
 func c15Case(g *c15Gen, s string) string {
